@@ -991,3 +991,128 @@ def m_next_back(ex, a, m):
     if not items: return none()
     last = items.pop(); it.it = iter(items); it.peeked = []
     return some(last)
+
+# ------------------------------------------------------------------------------------------ more f64 methods
+@model_rx(r'^(?:core::|std::)?f64::<impl f64>::(min|max|is_nan|is_finite|is_infinite|trunc|round|signum|is_sign_negative|is_sign_positive|to_bits|from_bits|copysign|sqrt|fract|clamp)$')
+def m_f64_more(ex, a, m):
+    op = m.group(1)
+    if op == 'from_bits': return F64(z3.fpBVToFP(a[0].bv, z3.Float64()))
+    x = a[0].f
+    if op in ('min', 'max'):
+        y = a[1].f
+        # IEEE minNum/maxNum: a NaN operand yields the other operand
+        r = z3.If(z3.fpIsNaN(x), y, z3.If(z3.fpIsNaN(y), x, z3.If((z3.fpLT(x, y) if op == 'min' else z3.fpGT(x, y)), x, y)))
+        return F64(r)
+    if op == 'is_nan': return Bool(z3.fpIsNaN(x))
+    if op == 'is_finite': return Bool(z3.Not(z3.Or(z3.fpIsNaN(x), z3.fpIsInf(x))))
+    if op == 'is_infinite': return Bool(z3.fpIsInf(x))
+    if op == 'trunc': return F64(z3.fpRoundToIntegral(z3.RTZ(), x))
+    if op == 'round': return F64(z3.fpRoundToIntegral(z3.RNA(), x))
+    if op == 'is_sign_negative': return Bool(z3.fpIsNegative(x))
+    if op == 'is_sign_positive': return Bool(z3.fpIsPositive(x))
+    if op == 'to_bits': return Int(z3.fpToIEEEBV(x), 'u64')
+    if op == 'sqrt': return F64(z3.fpSqrt(z3.RNE(), x))
+    if op == 'signum': return F64(z3.If(z3.fpIsNaN(x), x, z3.If(z3.fpIsNegative(x), z3.FPVal(-1.0, z3.Float64()), z3.FPVal(1.0, z3.Float64()))))
+    if op == 'copysign': return F64(z3.If(z3.fpIsNegative(a[1].f) == z3.fpIsNegative(x), x, z3.fpNeg(x)))
+    if op == 'fract': return F64(z3.fpSub(z3.RNE(), x, z3.fpRoundToIntegral(z3.RTZ(), x)))
+    if op == 'clamp':
+        lo, hi = a[1].f, a[2].f
+        return F64(z3.If(z3.fpLT(x, lo), lo, z3.If(z3.fpGT(x, hi), hi, x)))
+@model_rx(r'^<f64 as PartialOrd>::(lt|le|gt|ge)$')
+def m_f64_ord(ex, a, m):
+    x, y = deref_all(a[0]).f, deref_all(a[1]).f
+    return Bool({'lt': z3.fpLT, 'le': z3.fpLEQ, 'gt': z3.fpGT, 'ge': z3.fpGEQ}[m.group(1)](x, y))
+@model_rx(r'^<f64 as PartialEq>::(eq|ne)$')
+def m_f64_eq(ex, a, m):
+    x, y = deref_all(a[0]).f, deref_all(a[1]).f
+    return Bool(z3.fpEQ(x, y) if m.group(1) == 'eq' else z3.Not(z3.fpEQ(x, y)))
+
+# ------------------------------------------------------------------------------------------ more Option / Result combinators
+def _optv(a):
+    v = a[0]
+    return deref_all(v) if isinstance(v, Ptr) else v
+@model_rx(r'^(std::option::)?Option::(filter|and_then|or|or_else|xor|and|unwrap_or_else|unwrap_or_default|map_or_else|ok_or|is_some_and|is_none_or|zip|as_ref|as_mut|as_deref|replace|insert|get_or_insert_with|iter|into_iter|flatten|unwrap_unchecked)$')
+def m_opt_more(ex, a, m):
+    op = m.group(2); v = _optv(a)
+    if v.lazy is not None: ex.materialize(v)
+    is_some = v.variant == 'Some'
+    x = v.fields[0].v if is_some else None
+    if op == 'filter':
+        if not is_some: return none()
+        return some(x) if pybool(ex, ex.call_value(a[1], [Ptr(Cell(x), 'ref')])) else none()
+    if op == 'and_then': return ex.call_value(a[1], [x]) if is_some else none()
+    if op == 'or': return v if is_some else a[1]
+    if op == 'or_else': return v if is_some else ex.call_value(a[1], [])
+    if op == 'and': return a[1] if is_some else none()
+    if op == 'xor':
+        w = a[1]; ws = is_variant(ex, w, 'Some')
+        return v if (is_some and not ws) else (w if (ws and not is_some) else none())
+    if op == 'unwrap_or_else': return x if is_some else ex.call_value(a[1], [])
+    if op == 'unwrap_or_default':
+        if is_some: return x
+        raise Unsupported('Option::unwrap_or_default on None (Default of unknown type)')
+    if op == 'map_or_else': return ex.call_value(a[2], [x]) if is_some else ex.call_value(a[1], [])
+    if op == 'ok_or': return ok(x) if is_some else err(a[1])
+    if op == 'is_some_and': return Bool(False) if not is_some else ex.call_value(a[1], [x])
+    if op == 'is_none_or': return Bool(True) if not is_some else ex.call_value(a[1], [x])
+    if op == 'zip':
+        w = a[1]
+        return some(Agg('tuple', None, None, [Cell(x), Cell(w.fields[0].v)])) if (is_some and is_variant(ex, w, 'Some')) else none()
+    if op in ('as_ref', 'as_mut'): return some(Ptr(v.fields[0], 'ref')) if is_some else none()
+    if op == 'as_deref':
+        if not is_some: return none()
+        t = x
+        return some(Ptr(Cell(deref_all(t)), 'ref') if isinstance(t, Ptr) else Ptr(v.fields[0], 'ref'))
+    if op == 'replace':
+        c = a[0].cell; old = c.v; c.v = some(a[1]); return old
+    if op == 'insert':
+        c = a[0].cell; c.v = some(a[1]); return Ptr(c.v.fields[0], 'ref')
+    if op == 'get_or_insert_with':
+        c = a[0].cell
+        if not is_some: c.v = some(ex.call_value(a[1], []))
+        return Ptr(c.v.fields[0], 'ref')
+    if op in ('iter', 'into_iter'): return IterV(iter([x] if is_some else []))
+    if op == 'flatten': return x if is_some else none()
+    if op == 'unwrap_unchecked': return x
+@model_rx(r'^(std::result::)?Result::(unwrap_or|unwrap_or_else|unwrap_or_default|is_ok|is_err|err|or_else|or|and|map_or|map_or_else|as_ref|ok_or|is_ok_and|is_err_and|unwrap_err|expect_err|iter|into_iter|inspect_err|inspect)$')
+def m_res_more(ex, a, m):
+    op = m.group(2); v = _optv(a)
+    if v.lazy is not None: ex.materialize(v)
+    isok = v.variant == 'Ok'; x = v.fields[0].v
+    if op == 'unwrap_or': return x if isok else a[1]
+    if op == 'unwrap_or_else': return x if isok else ex.call_value(a[1], [x])
+    if op == 'unwrap_or_default':
+        if isok: return x
+        raise Unsupported('Result::unwrap_or_default on Err')
+    if op == 'is_ok': return Bool(isok)
+    if op == 'is_err': return Bool(not isok)
+    if op == 'err': return none() if isok else some(x)
+    if op == 'or_else': return v if isok else ex.call_value(a[1], [x])
+    if op == 'or': return v if isok else a[1]
+    if op == 'and': return a[1] if isok else v
+    if op == 'map_or': return ex.call_value(a[2], [x]) if isok else a[1]
+    if op == 'map_or_else': return ex.call_value(a[2], [x]) if isok else ex.call_value(a[1], [x])
+    if op == 'as_ref': return mk_enum('Result', v.variant, [Ptr(v.fields[0], 'ref')])
+    if op == 'is_ok_and': return ex.call_value(a[1], [x]) if isok else Bool(False)
+    if op == 'is_err_and': return ex.call_value(a[1], [x]) if not isok else Bool(False)
+    if op in ('unwrap_err', 'expect_err'):
+        if isok: raise Panic('called `Result::unwrap_err()` on an `Ok` value')
+        return x
+    if op in ('iter', 'into_iter'): return IterV(iter([x] if isok else []))
+    if op in ('inspect', 'inspect_err'):
+        if isok == (op == 'inspect'): ex.call_value(a[1], [Ptr(v.fields[0], 'ref')])
+        return v
+@model_rx(r'^(std::mem|core::mem)::(swap|replace|take)$')
+def m_mem(ex, a, m):
+    op = m.group(2)
+    if op == 'swap':
+        x, y = a[0].cell, a[1].cell; x.v, y.v = y.v, x.v; return UNIT
+    if op == 'replace':
+        c = a[0].cell; old = c.v; c.v = a[1]; return old
+    c = a[0].cell; old = c.v
+    if isinstance(old, VecV): c.v = VecV()
+    elif isinstance(old, StrV): c.v = StrV([])
+    elif isinstance(old, MapV): c.v = MapV(old.ordered)
+    elif isinstance(old, Agg) and old.ty == 'Option': c.v = none()
+    else: raise Unsupported('mem::take of ' + type(old).__name__)
+    return old
